@@ -66,6 +66,85 @@ theorem kwargs_only_declared_matter (P : Params) (n : Nat) :
 
 /-! ## `ArgFromValue`: which kinds each typed argument accepts -/
 
+/-- the `ValueInner` variant of a value -/
+def kindName : Value → String
+  | .undef => "Undefined" | .none => "None" | .bool _ => "Bool" | .u64 _ => "U64" | .i64 _ => "I64"
+  | .u128 _ => "U128" | .i128 _ => "I128" | .f64 _ => "F64" | .str .. => "String" | .arr _ => "Array"
+  | .map _ => "Map" | .bytes _ => "Bytes"
+
+def rowOf (t : ArgTy) : List String := (Generated.Builtins.argRows.lookup t.rust).getD []
+
+def isIntTy : ArgTy → Bool
+  | .usize | .u32 | .i32 | .i128 => true
+  | _ => false
+
+/-- **The model's argument acceptance is the table of args.rs.**  For every argument type the
+built-ins use and every value: a value whose `ValueInner` variant is not in the row extracted
+from the `ArgFromValue` impl is refused with InvalidArgument, and InvalidArgument is produced
+only for those — plus, for the integer types, a float that is not integral (the `v.trunc() == *v`
+guard of `int_from_value`).  Re-proved against args.rs on every run. -/
+theorem arg_rows_match (t : ArgTy) (v : Value) (ht : t ≠ .none) :
+    (kindName v ∉ rowOf t → t.check v = .error .invalidArg) ∧
+    (t.check v = .error .invalidArg →
+      kindName v ∉ rowOf t ∨ (isIntTy t = true ∧ ∃ x, v = .f64 x ∧ floatIntegral x = .notIntegral)) := by
+  have r1 : rowOf .str = ["String"] := by rfl
+  have r2 : rowOf .cowStr = ["Undefined", "None", "Bool", "U64", "I64", "U128", "I128", "F64", "String", "Array", "Map", "Bytes"] := by rfl
+  have r3 : rowOf .value = rowOf .cowStr := by rfl
+  have r4 : rowOf .valueRef = rowOf .cowStr := by rfl
+  have r5 : rowOf .slice = ["Array"] := by rfl
+  have r6 : rowOf .map = ["Map"] := by rfl
+  have r7 : rowOf .f64 = ["I64", "I128", "U64", "U128", "F64"] := by rfl
+  have r8 : rowOf .number = ["U64", "I64", "F64", "U128", "I128"] := by rfl
+  have r9 : rowOf .bool = ["Bool"] := by rfl
+  have r10 : rowOf .usize = rowOf .f64 := by rfl
+  have r11 : rowOf .u32 = rowOf .f64 := by rfl
+  have r12 : rowOf .i32 = rowOf .f64 := by rfl
+  have r13 : rowOf .i128 = rowOf .f64 := by rfl
+  have intCase : ∀ (lo hi : Int) (v : Value),
+      (kindName v ∉ (["I64", "I128", "U64", "U128", "F64"] : List String) →
+        ((intFromValue lo hi v).map fun _ => ()) = .error .invalidArg) ∧
+      (((intFromValue lo hi v).map fun _ => ()) = .error .invalidArg →
+        kindName v ∉ (["I64", "I128", "U64", "U128", "F64"] : List String) ∨
+          ∃ x, v = .f64 x ∧ floatIntegral x = .notIntegral) := by
+    intro lo hi v
+    cases v with
+    | f64 x =>
+      refine ⟨by simp [kindName], fun h => Or.inr ⟨x, rfl, ?_⟩⟩
+      simp only [intFromValue] at h
+      cases hf : floatIntegral x with
+      | notIntegral => rfl
+      | infinite => simp [hf, Except.map] at h
+      | int n =>
+        simp only [hf] at h
+        split at h <;> (try split at h) <;> simp [Except.map] at h
+    | u64 n => by_cases hr : lo ≤ (n : Int) ∧ (n : Int) ≤ hi <;> simp [kindName, intFromValue, Value.intVal, Except.map, hr]
+    | i64 n => by_cases hr : lo ≤ n ∧ n ≤ hi <;> simp [kindName, intFromValue, Value.intVal, Except.map, hr]
+    | u128 n => by_cases hr : lo ≤ (n : Int) ∧ (n : Int) ≤ hi <;> simp [kindName, intFromValue, Value.intVal, Except.map, hr]
+    | i128 n => by_cases hr : lo ≤ n ∧ n ≤ hi <;> simp [kindName, intFromValue, Value.intVal, Except.map, hr]
+    | _ => simp [kindName, intFromValue, Value.intVal, Except.map]
+  cases t with
+  | none => exact absurd rfl ht
+  | str => rw [r1]; cases v <;> simp [kindName, ArgTy.check, strFromValue, Except.map, isIntTy]
+  | cowStr => rw [r2]; cases v <;> simp [kindName, ArgTy.check, isIntTy]
+  | value => rw [r3, r2]; cases v <;> simp [kindName, ArgTy.check, isIntTy]
+  | valueRef => rw [r4, r2]; cases v <;> simp [kindName, ArgTy.check, isIntTy]
+  | slice => rw [r5]; cases v <;> simp [kindName, ArgTy.check, sliceFromValue, Except.map, isIntTy]
+  | map => rw [r6]; cases v <;> simp [kindName, ArgTy.check, mapFromValue, Except.map, isIntTy]
+  | f64 => rw [r7]; cases v <;> simp [kindName, ArgTy.check, f64FromValue, Value.intVal, Except.map, isIntTy]
+  | number =>
+    rw [r8]
+    cases v with
+    | u64 n => by_cases hr : inI128 (n : Int) <;> simp [kindName, ArgTy.check, numberFromValue, Value.asNumber, Value.asI128, Value.intVal, Value.isNumber, Except.map, isIntTy, hr]
+    | i64 n => by_cases hr : inI128 n <;> simp [kindName, ArgTy.check, numberFromValue, Value.asNumber, Value.asI128, Value.intVal, Value.isNumber, Except.map, isIntTy, hr]
+    | u128 n => by_cases hr : inI128 (n : Int) <;> simp [kindName, ArgTy.check, numberFromValue, Value.asNumber, Value.asI128, Value.intVal, Value.isNumber, Except.map, isIntTy, hr]
+    | i128 n => by_cases hr : inI128 n <;> simp [kindName, ArgTy.check, numberFromValue, Value.asNumber, Value.asI128, Value.intVal, Value.isNumber, Except.map, isIntTy, hr]
+    | _ => simp [kindName, ArgTy.check, numberFromValue, Value.asNumber, Value.asI128, Value.intVal, Value.isNumber, Except.map, isIntTy]
+  | bool => rw [r9]; cases v <;> simp [kindName, ArgTy.check, boolFromValue, Except.map, isIntTy]
+  | usize => rw [r10, r7]; simpa [ArgTy.check, isIntTy] using intCase 0 USIZE_MAX v
+  | u32 => rw [r11, r7]; simpa [ArgTy.check, isIntTy] using intCase 0 U32_MAX' v
+  | i32 => rw [r12, r7]; simpa [ArgTy.check, isIntTy] using intCase I32_MIN I32_MAX v
+  | i128 => rw [r13, r7]; simpa [ArgTy.check, isIntTy] using intCase I128_MIN I128_MAX v
+
 /-- `&str` accepts strings (normal and safe) and nothing else; refusal is InvalidArgument. -/
 theorem str_arg_accepts (v : Value) :
     (∃ sf s, v = .str sf s ∧ strFromValue v = .ok s) ∨ ((∀ sf s, v ≠ .str sf s) ∧ strFromValue v = .error .invalidArg) := by
@@ -490,23 +569,34 @@ theorem round_exact (neg : Bool) (m : Nat) (e : Int) (kw : Kwargs)
     refine ⟨x.ceilF, ?_, h2, by rw [h1]; exact h3, by rw [h1]; exact h4⟩
     simp [fRound, Builtins.ofExcept, this, hprec, x, F64.isFinite]
 
-/-- `round`: a `precision` for which `10^precision` is not a normal float is an error (F15);
-non-finite inputs come back unchanged. -/
+/-- `round`: a `precision` for which `10^precision` is not a normal float is an error (F15),
+before anything else; a `method` other than `ceil` / `floor` is an error **for every value**
+(finite or not) and every in-range precision; non-finite inputs with a valid method come back
+unchanged. -/
 theorem round_guards (x : F64) (kw : Kwargs) :
-    (∀ p, kwGet (intFromValue I32_MIN I32_MAX) kw "precision" = .ok (some p) →
-      kwGet strFromValue kw "method" = .ok none → ¬ (-307 ≤ p ∧ p ≤ 308) → fRound x kw = .err .msg) ∧
+    (∀ p om, kwGet (intFromValue I32_MIN I32_MAX) kw "precision" = .ok (some p) →
+      kwGet strFromValue kw "method" = .ok om → ¬ (-307 ≤ p ∧ p ≤ 308) → fRound x kw = .err .msg) ∧
+    (∀ op m, kwGet (intFromValue I32_MIN I32_MAX) kw "precision" = .ok op →
+      (op.getD 0 = 0 ∨ (-307 ≤ op.getD 0 ∧ op.getD 0 ≤ 308)) →
+      kwGet strFromValue kw "method" = .ok (some m) → m ≠ "ceil".toList → m ≠ "floor".toList →
+      fRound x kw = .err .msg) ∧
     (kw.find "precision" = none → kw.find "method" = none → x.isFinite = false →
       fRound x kw = .ok (.f64 x)) := by
-  constructor
-  · intro p hp hm hr
+  refine ⟨?_, ?_, ?_⟩
+  · intro p om hp hm hr
     have hp0 : p ≠ 0 := by intro h; subst h; exact hr (by omega)
     simp [fRound, Builtins.ofExcept, hp, hm, hp0, hr]
+  · intro op m hp hr hm h1 h2
+    have hg : ¬ (op.getD 0 ≠ 0 ∧ ¬ (-307 ≤ op.getD 0 ∧ op.getD 0 ≤ 308)) := by
+      rintro ⟨g1, g2⟩
+      rcases hr with hr | hr
+      · exact g1 hr
+      · exact g2 hr
+    simp only [fRound, Builtins.ofExcept, hp, hm, hg, if_false, h1, h2]
   · intro hp hm hx
     have h1 : kwGet (intFromValue I32_MIN I32_MAX) kw "precision" = .ok none := by simp [kwGet, hp]
     have h2 : kwGet strFromValue kw "method" = .ok none := by simp [kwGet, hm]
     simp [fRound, Builtins.ofExcept, h1, h2, hx]
-
-
 
 /-! ## String filters -/
 
@@ -690,10 +780,13 @@ theorem wordcount_contract :
     (∀ a w b, isWhitespace w = true → wordcount (a ++ w :: b) = wordcount a + wordcount b) :=
   ⟨rfl, wordcount_run, fun a w b hw => wordcountAux_false_append_ws a w b hw false⟩
 
-/-- **newlines_to_br** leaves no `\n` or `\r` behind and inserts nothing but `<br>`: every
-character of the result is a character of `<br>` or a non-newline character. -/
+/-- **newlines_to_br** does exactly what it documents: the two-pass code
+(`replace("\r\n", "<br>")` then every `\n` / `\r`) equals the one-pass specification `brSpec`
+(`\r\n`, a lone `\n`, a lone `\r` each become `<br>`, every other character is kept in place);
+in particular no `\n` or `\r` is left. -/
 theorem newlines_to_br_contract (s : List Char) :
-    ∀ x ∈ newlinesToBr s, x ≠ '\n' ∧ x ≠ '\r' := by
+    newlinesToBr s = brSpec s ∧ ∀ x ∈ newlinesToBr s, x ≠ '\n' ∧ x ≠ '\r' := by
+  refine ⟨newlinesToBr_eq_spec s, ?_⟩
   intro x hx
   unfold newlinesToBr at hx
   obtain ⟨c, _, hc⟩ := List.mem_flatMap.1 hx
@@ -705,14 +798,21 @@ theorem newlines_to_br_contract (s : List Char) :
     subst hc
     simpa [not_or] using h
 
-/-- **indent** never changes a one-line text unless asked to indent the first line, and the
-width is capped at 1000. -/
-theorem indent_contract (width : Nat) (blank : Bool) (s : List Char) :
-    indent width false blank [] = [] ∧
-    indent width true blank s = indent (min width 1000) true blank s ∧
-    indent width false blank s = indent (min width 1000) false blank s := by
-  refine ⟨by simp [indent, lines, linesAux], ?_, ?_⟩ <;>
-    simp [indent, Nat.min_assoc]
+/-- **indent does exactly what it documents**: on every text without `\r`, the code (built on
+`str::lines`, re-joining with `\n` and re-adding a final `\n`) equals the one-pass specification
+`indentSpec`: the prefix of `min width 1000` spaces goes in front of the first line iff `first`
+(and the text is not empty), and after every line break that is followed by more text unless
+the line it starts is empty and `blank` is off; every character of the input is kept, in
+order, and nothing else is inserted.  (With `\r\n` line ends `str::lines` drops the `\r`: an
+observation reported to the lead, mirrored by the harness's reference implementation.) -/
+theorem indent_contract (width : Nat) (first blank : Bool) (s : List Char) (hcr : '\r' ∉ s) :
+    indent width first blank s = indentSpec (List.replicate (min width 1000) ' ') first blank s ∧
+    indent width first blank s = indent (min width 1000) first blank s := by
+  refine ⟨indent_eq_spec width first blank s hcr, ?_⟩
+  simp [indent, Nat.min_assoc]
+
+example : indent 2 false false "a\n\nb\n".toList = "a\n\n  b\n".toList := by decide
+example : indent 1 true true "a\n\nb".toList = " a\n \n b".toList := by decide
 
 /-- **Case filters change only case**, for ANY case mapping that is case-insensitively the
 identity: if `fold` (a case folding that respects concatenation) identifies each mapped piece
